@@ -159,15 +159,21 @@ impl<'a> Gen<'a> {
             None => self.c.cost(3, "shape-kind"),
         };
         shapes.push(self.shape(k0));
-        match self.c.cost(4, "second-shape") {
+        match self.c.cost(5, "second-shape") {
             0 => {}
             1 => {
                 let k = self.c.cost(3, "shape-kind");
                 shapes.push(self.shape(k));
             }
-            // the first shape stated a second time: digit for digit / with one more trailing zero everywhere
+            // the first shape stated a second time: digit for digit / with one more trailing zero everywhere / with
+            // the same digits and the decimal point one place further left (a tenth of every value: other numbers
+            // that happen to share their digit strings with earlier ones)
             alt => {
-                let again = |d: &Dec| if alt == 2 { d.clone() } else { Dec { mant: d.mant * 10, scale: d.scale + 1 } };
+                let again = |d: &Dec| match alt {
+                    2 => d.clone(),
+                    3 => Dec { mant: d.mant * 10, scale: d.scale + 1 },
+                    _ => Dec { mant: d.mant, scale: d.scale + 1 },
+                };
                 let twin = match &shapes[0] {
                     GShape::Rect(a, b, c, d) => GShape::Rect(again(a), again(b), again(c), again(d)),
                     GShape::Polygon(v) => GShape::Polygon(v.iter().map(|(x, y)| (again(x), again(y))).collect()),
@@ -359,7 +365,7 @@ impl CaseDriver for C16 {
     fn describe(&self, tier: Tier) -> Describe {
         Describe {
             rule: format!(
-                "LefLibrary values built directly: 1-2 macros with SIZE, 0-2 pins x 1-2 ports x 1-2 layer geometries, 0-2 obstruction layers (second optionally on the same layer => merged), 1-2 geometries per layer of kind RECT / POLYGON (3-5 points) / PATH (2-3 points, layer WIDTH), the second one optionally the first one stated again (digit for digit, or with one more trailing zero on every number: still two shapes), layer names from {{m1, M1, via, boundary, e-acute}}; polygons optionally closed explicitly and paths optionally returning to their first point; UNITS DATABASE MICRONS absent / 1000 / 100 / 2000 / 10000 / 20000 (raw units stay 1e-4 um: the import declares Angstrom); the macro optionally has an ORIGIN statement ((0.5, 1.25) / (-2, 0)), which must not move any coordinate; every coordinate site takes one of 14 decimals Decimal::new(mantissa, scale) built from the site counter (so all sites differ: x != y everywhere): scale 0,1,2,4,5,6, negative, negative between -1 and 0, trailing zeros, zero spelled 0 and 0.000, and four values (two positive, two negative) that are not a whole number of 1e-4 um. Free: kind of the first shape and second macro; all other choices cost one deviation; all choice sequences with <= {} deviations. A state is one library value; non-trivial = at least one deviation. Oracle: value*10^4 computed on the decimal digits.",
+                "LefLibrary values built directly: 1-2 macros with SIZE, 0-2 pins x 1-2 ports x 1-2 layer geometries, 0-2 obstruction layers (second optionally on the same layer => merged), 1-2 geometries per layer of kind RECT / POLYGON (3-5 points) / PATH (2-3 points, layer WIDTH), the second one optionally the first one stated again (digit for digit, with one more trailing zero on every number, or with the same digits and the decimal point moved one place: still two shapes), layer names from {{m1, M1, via, boundary, e-acute}}; polygons optionally closed explicitly and paths optionally returning to their first point; UNITS DATABASE MICRONS absent / 1000 / 100 / 2000 / 10000 / 20000 (raw units stay 1e-4 um: the import declares Angstrom); the macro optionally has an ORIGIN statement ((0.5, 1.25) / (-2, 0)), which must not move any coordinate; every coordinate site takes one of 14 decimals Decimal::new(mantissa, scale) built from the site counter (so all sites differ: x != y everywhere): scale 0,1,2,4,5,6, negative, negative between -1 and 0, trailing zeros, zero spelled 0 and 0.000, and four values (two positive, two negative) that are not a whole number of 1e-4 um. Free: kind of the first shape and second macro; all other choices cost one deviation; all choice sequences with <= {} deviations. A state is one library value; non-trivial = at least one deviation. Oracle: value*10^4 computed on the decimal digits.",
                 self.bound(tier)
             ),
             assumptions: vec!["WIDTH is only generated on layers that hold a PATH (an unused non-representable WIDTH is not a coordinate of any shape)".into()],
